@@ -50,6 +50,7 @@ def run_check(prop: str, tier: str, root: str, known=None, evidence_path=None,
     hygiene.run(ctx, prop)
     hygiene.run_options(ctx, prop)
     hygiene.run_tuple_protocol(ctx, prop)
+    hygiene.run_method_truthiness(ctx, prop)
     extra = {}
     if tier == 'thorough' and hasattr(mod, 'run_thorough'):
         mod.run_thorough(ctx)
